@@ -26,7 +26,7 @@ func isCfgCall(v ssa.Value, name string) bool {
 }
 
 func checkC13(c *Ctx) {
-	c.Explanation = "Decides the retry structure of the file handler on every CFG path: (R1) classification — Handle returns only (a) at once for an error that is neither io.EOF nor an 'i/o timeout', (b) when the configured tolerance TimeoutOnEOF() is zero, (c) when the time since the first of a run of EOF/timeout results exceeds TimeoutOnEOF(); in every other case it loops to the next read; (R2) forward-once — every read that yields a byte is followed, before the next read or return, by exactly one send of that byte on the byte channel; the read buffer is a fresh one-byte slice, for which bufio.Reader.Read never returns data together with an error, so the error branch cannot hide a byte; (R3) the EOF clock is cleared on the success path and started only when it is clear; (R4) the byte channel is closed by a deferred close that covers every return, so the framer flushes the partial frame and closes its output (C02-R5, evaluated here too). R1 also requires Config.TimeoutOnEOF/WaitTimeOnEOF to be branch-free projections of one setting each, so a configured zero tolerance is zero. R4 also requires that the framer goroutine, which alone closes the output channel, is started once and unconditionally (C09 single-sender and confinement rules)."
+	c.Explanation = "Decides the retry structure of the file handler on every CFG path: (R1) classification — Handle returns only (a) at once for an error that is neither io.EOF nor an 'i/o timeout', (b) when the configured tolerance TimeoutOnEOF() is zero, (c) when the time since the first of a run of EOF/timeout results exceeds TimeoutOnEOF(); in every other case it loops to the next read; (R2) forward-once — every read that yields a byte is followed, before the next read or return, by exactly one send of that byte on the byte channel; the read buffer is a fresh one-byte slice, for which bufio.Reader.Read never returns data together with an error, so the error branch cannot hide a byte; (R3) the EOF clock is cleared on the success path and started only when it is clear; (R4) the byte channel is closed by a deferred close that covers every return, so the framer flushes the partial frame and closes its output (C02-R5, evaluated here too). R1 also requires Config.TimeoutOnEOF/WaitTimeOnEOF to be branch-free projections of one setting each, so a configured zero tolerance is zero. R4 also requires that the framer goroutine, which alone closes the output channel, is started once and unconditionally (C09 single-sender and confinement rules). R1 also requires that a retry pause is reached only with an end-of-file or time-out result and a non-zero tolerance; R2 that the send is reached only with n > 0 and that the reader is used by the one read call only."
 	c.NotDecided = "real time (sleep durations, clock monotonicity); behaviour of readers other than *bufio.Reader (the parameter's static type)."
 	c.Assumptions = append(c.Assumptions, "bufio.Reader.Read with a destination shorter than its internal buffer (>=16 bytes) returns n>0 only with a nil error (copy from the buffer), and (0, err) otherwise")
 	pl := resolvePipeline(c, "C13-anchor")
@@ -191,6 +191,58 @@ func ruleForwardOnce(c *Ctx, pl *pipeline, rule string, read *ssa.Call, nVal, er
 		_, isMk := root(sd.Chan).(*ssa.MakeChan)
 		c.Check(okv && isMk, rule, "Handle:send-operand", sd.Pos(), "sends buf[0] of the buffer just read on the byte channel", "the value sent is not the byte just read, or goes to another channel")
 		c.Check(instrDominates(read, sd), rule, "Handle:send-after-read", sd.Pos(), "the send follows the read", "the send is not dominated by the read")
+		// only a byte that was actually read is forwarded: the send is reached with n > 0 (a read may
+		// return no data and no error; the buffer then still holds zero or the previous byte)
+		gotByte := onEveryPath(sd.Block(), func(f EdgeFact) bool {
+			bo, ok := f.Cond.(*ssa.BinOp)
+			if !ok {
+				return false
+			}
+			k, isK := constInt(bo.Y)
+			if bo.X != nVal || !isK {
+				return false
+			}
+			switch {
+			case bo.Op == token.GTR && k == 0 && f.Val, bo.Op == token.GEQ && k == 1 && f.Val,
+				bo.Op == token.LEQ && k == 0 && !f.Val, bo.Op == token.LSS && k == 1 && !f.Val,
+				bo.Op == token.NEQ && k == 0 && f.Val, bo.Op == token.EQL && k == 0 && !f.Val,
+				bo.Op == token.EQL && k == 1 && f.Val:
+				return true
+			}
+			return false
+		})
+		c.Check(gotByte, rule, "Handle:send-only-if-read", sd.Pos(), "the send is reached only when the read returned a byte (n > 0)",
+			"the byte channel can be sent a byte although the read returned none: a spurious byte is inserted into the stream")
+	}
+	// the reader is consumed through this one read call only: a second call that reads (Peek, ReadByte,
+	// Discard ...) takes bytes or read errors away from the loop's own classification
+	{
+		var rd ssa.Value
+		if len(read.Common().Args) > 0 {
+			rd = read.Common().Args[0]
+		}
+		extra := false
+		eachInstr(fn, func(ins ssa.Instruction) {
+			ci, ok := ins.(ssa.CallInstruction)
+			if !ok || ins == ssa.Instruction(read) || rd == nil {
+				return
+			}
+			cc := ci.Common()
+			if cc.IsInvoke() {
+				if cc.Value == rd {
+					extra = true
+					c.Fail(rule, "Handle:single-read-site", ins.Pos(), "refuted", "the reader is used by a second call ("+cc.Method.Name()+"): bytes or read errors can be consumed outside the read whose results the loop classifies")
+				}
+				return
+			}
+			if f := cc.StaticCallee(); f != nil && f.Signature.Recv() != nil && len(cc.Args) > 0 && cc.Args[0] == rd {
+				extra = true
+				c.Fail(rule, "Handle:single-read-site", ins.Pos(), "refuted", "the reader is used by a second call ("+f.Name()+"): bytes or read errors can be consumed outside the read whose results the loop classifies")
+			}
+		})
+		if !extra {
+			c.OK(rule, "Handle:single-read-site", read.Pos(), "the reader is used by the one read call only")
+		}
 	}
 	// fresh buffer per iteration
 	if bi, ok := sliceBase(buf).(ssa.Instruction); ok {
@@ -445,6 +497,15 @@ func ruleTransientGaps(c *Ctx, fn *ssa.Function, nVal, errVal ssa.Value, rule1, 
 			return false
 		}
 		retryable := onEveryPath(call.Block(), func(f EdgeFact) bool { return retryCond(f.Cond, f.Val, 0) })
+		tolerant := onEveryPath(call.Block(), func(f EdgeFact) bool {
+			bo, ok := f.Cond.(*ssa.BinOp)
+			if !ok || !isCfgCall(bo.X, "TimeoutOnEOF") || !isZero(bo.Y) {
+				return false
+			}
+			return (bo.Op == token.EQL && !f.Val) || (bo.Op == token.NEQ && f.Val) || (bo.Op == token.GTR && f.Val)
+		})
+		c.Check(tolerant, rule1, "Handle:no-retry-with-zero-tolerance", call.Pos(), "the pause before a retry is reached only with a non-zero tolerance",
+			"with tolerance zero some end-of-file or time-out result is retried instead of stopping the handler")
 		c.Check(retryable, rule1, "Handle:retry-only-eof-or-timeout", call.Pos(), "the pause before a retry is reached only with an end-of-file or time-out result",
 			"the handler can pause and retry after a read error that is neither end of file nor a time-out: such an error must stop it")
 	})
